@@ -21,6 +21,7 @@ import (
 func init() { commands["C08"] = runC08 }
 
 type c08World struct {
+	prefix string // set when these operations are embedded in another property's run (C02: "p8.")
 	ts     *mockts.TS
 	keys   map[string][2][]byte
 	agents map[string]*agent.Agent
@@ -32,6 +33,7 @@ func newC08World() *c08World {
 
 func (w *c08World) line(c *Ctx, in string) {
 	parts := strings.Fields(in)
+	in = w.prefix + in
 	switch parts[0] {
 	case "reset":
 		*w = *newC08World()
